@@ -54,6 +54,10 @@ ProcOf(j) == IF j.t = "stop" THEN PStop
              ELSE PStart(j.mode, j.to)
 TProc == /\ Consume /\ Ev.e = "proc"
          /\ proc # <<>> /\ Head(proc) = ProcOf(Ev.m) /\ TakeProc /\ UNCHANGED terming
+\* a server process that is stopped while it is still starting up leaves no trace
+TUnseen == /\ Len(proc) >= 2 /\ proc[1].t = "start" /\ proc[2].t = "stop"
+           /\ proc' = Tail(Tail(proc)) /\ UNCHANGED <<l, terming>>
+           /\ UNCHANGED <<phase, inbox, votes, mayVote, hbFrom, leader, net, roundVoters, announced, eused>>
 TTerm == Consume /\ Ev.e = "term" /\ terming' = "yes" /\ UNCHANGED evars
 \* graceful shutdown (tosub): the loops end, a running server is stopped
 Shutdown ==
@@ -72,7 +76,7 @@ Ahead == /\ \A p \in Peers_ : Len(net[p]) < MaxAhead
          /\ Len(proc) < MaxAhead
 Silent == l <= Len(Rec) /\ Ahead /\ terming # "down" /\ (Recv \/ Timeout \/ LeaderBeat) /\ UNCHANGED <<l, terming>>
 
-TNext == TReset \/ TSend \/ TNet \/ TProc \/ TTerm \/ Shutdown \/ TEnd \/ Silent
+TNext == TReset \/ TSend \/ TNet \/ TProc \/ TUnseen \/ TTerm \/ Shutdown \/ TEnd \/ Silent
 TSpec == TInit /\ [][TNext]_<<evars, l, terming>>
 
 TraceC19 == [][LeaderStep /\ FollowerStep]_<<evars, l, terming>>
